@@ -96,6 +96,10 @@ def spaces(tier, seed):
                                                                  "sel": ["auto"], "adl": [True], "base": [False]}))
     sp.append(Product("two-dates-with-and-without-a-dropped-word", {"lang": LANGS, "d": range(4), "d2": [0, 1], "w": range(10), "order": [0, 1], "sel": ["lang"], "adl": [True, False], "base": [True]},
                       note="two full dates next to each other (a chunk that only parses after splitting), once joined by a space and once by a word the translation drops; both texts searched in one case, in both orders, the first text once more at the end: every call well-formed, the repeated call equal to the first"))
+    sp.append(Product("two-language-requests-in-sequence", {"lang": ["en"], "p1": range(len(PAIRS)), "p2": range(len(PAIRS)), "t1": range(len(WORDS)), "t2": range(len(WORDS)),
+                                                            "sel": ["pair"], "adl": [True], "base": [True]},
+                      note="two searches in one case, each with two requested languages and a one-word text that may belong to neither (the detector is then inconclusive): "
+                           "the second result must be well-formed and its language among the second call's languages, whatever the first call requested"))
     sp.append(Product("glued-punctuation", {"lang": LANGS, "i": range(6), "j": range(6), "glue": [",", "'", ".", "-", ":", "/", ";", ")(", "\u2019", ",,"],
                                             "sel": ["lang"], "adl": [True], "base": [True]},
                       note="two tokens joined by a punctuation mark without spaces"))
@@ -106,6 +110,8 @@ def spaces(tier, seed):
 
 
 def text_of(sub, c):
+    if sub == "two-language-requests-in-sequence":
+        return WORDS[c["t2"]]
     core20, core8, rel, joiner, fill = alphabet(c["lang"])
     if sub.startswith("relative-phrases"):
         if c["r"] >= len(rel):
@@ -197,6 +203,10 @@ def text_of(sub, c):
     return joiner.join(alpha[i] for i in idx)
 
 
+PAIRS = [(a, b) for a in ("en", "es", "fr", "de", "ru", "it") for b in ("en", "es", "fr", "de", "ru", "it") if a != b]
+WORDS = ["hier", "\u0432\u0447\u0435\u0440\u0430", "ayer", "yesterday", "gestern", "demain", "ma\u00f1ana", "ieri 10:30"]
+
+
 def squeeze(s):
     return "".join(s.split())
 
@@ -237,10 +247,24 @@ def run_case(sub, c):
     text = text_of(sub, c)
     if text is None or not text.strip():
         return None
-    langs = {"lang": [c["lang"]], "auto": None, "lang+en": [c["lang"], "en"] if c["lang"] != "en" else ["en", "fr"]}[c["sel"]]
+    langs = {"lang": [c["lang"]], "auto": None, "pair": None, "lang+en": [c["lang"], "en"] if c["lang"] != "en" else ["en", "fr"]}[c["sel"]]
     kw = {"languages": langs, "add_detected_language": c["adl"]}
     if c["base"]:
         kw["settings"] = {"RELATIVE_BASE": BASE}
+    if sub == "two-language-requests-in-sequence" and text is not None:
+        l1, l2 = list(PAIRS[c["p1"]]), list(PAIRS[c["p2"]])
+        t1, t2 = WORDS[c["t1"]], WORDS[c["t2"]]
+        st = {"RELATIVE_BASE": BASE}
+        for t, ls in ((t1, l1), (t2, l2)):
+            o = api.outcome_of(search_dates, t, languages=ls, add_detected_language=True, settings=dict(st))
+            if o[0] == "exc":
+                return "bad", True, {"cls": {"form": "exception", "exception": o[1], "site": o[3], "sub": sub}, "expected": "no exception",
+                                     "observed": o[1:], "detail": {"calls_in_order": [[t1, l1], [t2, l2]], "failing_text": t}}
+            prob = judge(t, o[1], True, ls)
+            if prob is not None:
+                return "bad", True, {"cls": {"form": "malformed", "problem": prob, "sub": sub}, "expected": "well-formed hits, language among %s" % ls,
+                                     "observed": o[1], "detail": {"calls_in_order": [[t1, l1], [t2, l2]], "failing_text": t}}
+        return ("hits" if o[1] else "none"), bool(o[1]), None
     if sub == "two-dates-with-and-without-a-dropped-word":
         plain = text_of(sub, dict(c, _plain=True))
         seq = [plain, text, plain] if c["order"] == 0 else [text, plain, text]
